@@ -6,7 +6,93 @@ use crate::common::*;
 use serde_json::{json, Value};
 use simcore::*;
 
+/// A file larger than the 64 KiB buffers with a NUL byte late in a line that does not match:
+/// whichever strategy and binary-detection outcome the command line leads to, `-m N` must print
+/// exactly the first N lines of what the same command prints without a limit (or all of it).
+fn run_big(sub: u64, only_n: Option<u64>, acc: &mut Acc, ctx: &Ctx) {
+    let mut rng = Rng::new(sub ^ 0xB16);
+    let mut text: Vec<u8> = vec![];
+    let target = 70_000 + rng.below(60_000);
+    let nul_at_line = rng.chance(2, 3);
+    let mut matches_total = 0usize;
+    let mut nul_done = false;
+    let every = 400 + rng.below(3000);
+    let mut since = 0usize;
+    while text.len() < target {
+        if !nul_done && nul_at_line && text.len() > 66_000 + (sub % 3000) as usize {
+            text.extend_from_slice(b"binary \0 data here\n");
+            nul_done = true;
+            continue;
+        }
+        if since >= every {
+            text.extend_from_slice(b"a line with foo in it\n");
+            matches_total += 1;
+            since = 0;
+        } else {
+            let n = 10 + rng.below(60);
+            text.extend(std::iter::repeat(b'x').take(n));
+            text.push(b'\n');
+            since += n + 1;
+        }
+    }
+    let scratch = ctx.scratch.path().to_path_buf();
+    let root = scratch.join("w");
+    let _ = std::fs::remove_dir_all(&root);
+    std::fs::create_dir_all(&root).unwrap();
+    std::fs::write(root.join("big.txt"), &text).unwrap();
+    let route = ["auto", "auto", "--mmap", "--no-mmap"][rng.below(4)];
+    let mk = |n: Option<u64>| {
+        let mut a: Vec<String> = ["--no-config", "--color=never", "-j1", "-n"].iter().map(|s| s.to_string()).collect();
+        if route != "auto" {
+            a.push(route.into());
+        }
+        if let Some(n) = n {
+            a.push(format!("-m{n}"));
+        }
+        a.extend(["foo".into(), "w/big.txt".into()]);
+        RunSpec { args: a, plan: vec!["noop=1".into()], ..RunSpec::default() }
+    };
+    let full = ctx.run(&scratch, &mk(None), 60);
+    acc.evals += 1;
+    acc.mix.inc(&format!("big-file-with-late-NUL({route})"));
+    let full_lines: Vec<&[u8]> = full.stdout.split_inclusive(|&c| c == b'\n').collect();
+    let n_match_lines = full_lines.iter().filter(|l| l.windows(3).any(|w| w == b"foo") && !l.windows(6).any(|w| w == b"binary")).count() as u64;
+    let mut digest = digest_out(sub, &full);
+    let mut ns = vec![0, 1, n_match_lines / 2, n_match_lines.saturating_sub(1), n_match_lines, n_match_lines + 1, matches_total as u64];
+    ns.sort();
+    ns.dedup();
+    for n in ns {
+        if only_n.map_or(false, |x| x != n) {
+            continue;
+        }
+        let spec = mk(Some(n));
+        let got = ctx.run(&scratch, &spec, 60);
+        acc.evals += 1;
+        acc.faults.inc("match-limit(-m N)");
+        digest = digest_out(digest, &got);
+        let expect: Vec<u8> = if n < n_match_lines { full_lines[..n as usize].concat() } else { full.stdout.clone() };
+        let exp_code = if n == 0 { 1 } else { full.code };
+        // with exactly as many matches allowed as there are, a trailing notice of the unlimited
+        // search may or may not be reached
+        let also_ok = n == n_match_lines && got.stdout == full_lines[..(n as usize).min(full_lines.len())].concat();
+        if (got.stdout != expect && !also_ok) || got.code != exp_code || got.stderr != full.stderr {
+            acc.violation(
+                "C16",
+                &format!("match-limit:cli-big:{route}"),
+                format!("rg -m{n} ({route}) on a {} byte file with a late NUL: {} lines printed, expected the first {} of the {} lines the unlimited search prints; exit {} expected {exp_code}", text.len(), lines(&got.stdout).len(), n.min(full_lines.len() as u64), full_lines.len(), got.code),
+                sub,
+                json!({"engine": "procsim", "kind": "c16", "subseed_workload": sub, "n": n, "big": true, "run": spec_json(&spec), "unlimited": full.to_json(), "observed": got.to_json()}),
+            );
+        }
+    }
+    acc.distinct.insert(fnv(&text) ^ sub);
+    acc.digests.push((sub, digest));
+}
+
 pub fn run_workload(sub: u64, only_n: Option<u64>, acc: &mut Acc, ctx: &Ctx, _thorough: bool) {
+    if sub % 6 == 0 {
+        return run_big(sub, only_n, acc, ctx);
+    }
     let mut rng = Rng::new(sub);
     let nl = 1 + rng.below(40);
     let hit = [1, 3, 6][rng.below(3)];
